@@ -184,7 +184,10 @@ def runXp (text : List Char) (ns : NsMap) (vs : Vars) (es : List Event) : Sexp :
   | .ok ps =>
     if !pathsCovered ps then .atom "unmodelled" else
     match Ref.buildForest es with
-    | some [root] => .list (.atom "ok" :: (Ref.xpSelect ps ns (toXVars vs) root).map itemSexp)
+    | some [root] =>
+        let a := Ref.xpSelect ps ns (toXVars vs) root
+        if a == Ref.xpSelectSets ps ns (toXVars vs) root then .list (.atom "ok" :: a.map itemSexp)
+        else .atom "reference-formulations-differ"
     | _ => .atom "unmodelled"
 
 def handle : List Sexp → Option Sexp
